@@ -59,6 +59,23 @@ def main():
         for a, b in combos:
             s.case(None, ("lattice", a, b), sample=dict(source=[boxes[i].coordinates for i in a], target=[boxes[j].coordinates for j in b]))
             check(s, f"boxes {a} vs {b}", [boxes[i] for i in a], [boxes[j] for j in b])
+    # near misses of the buffered (zero-extent) types: gaps below, between and above one and two default buffers
+    def near(kind, t, f):
+        if kind == "TimeStamp":
+            return data.TimeStamp(coordinates=t)
+        if kind == "Point":
+            return data.Point(coordinates=[t, f])
+        if kind == "LineString":
+            return data.LineString(coordinates=[[t, f], [t + 0.001, f + 10.0]])
+        return data.MultiPoint(coordinates=[[t, f], [t + 0.001, f]])
+    for ka, kb in itertools.product(("TimeStamp", "Point", "LineString", "MultiPoint"), repeat=2):
+        for gap in (0.004, 0.009, 0.012, 0.015, 0.019, 0.025):
+            for df in (0.0, 120.0, 190.0):
+                src = [near(ka, 1.0, 1000.0), near(ka, 3.0, 1000.0)]
+                tgt = [near(kb, 1.0 + gap + (0.001 if ka in ("LineString", "MultiPoint") else 0.0), 1000.0 + df)]
+                s.case(None, ("near", ka, kb, gap, df), sample=dict(source=[g.coordinates for g in src], target=[g.coordinates for g in tgt]))
+                check(s, f"near {ka} vs {kb} gap={gap} df={df}", src, tgt)
+                check(s, f"near {kb} vs {ka} gap={gap} df={df} (swapped)", tgt, src)
     for k in range(60 if s.tier == "quick" else 600):
         n, m = s.rng.randint(0, 6), s.rng.randint(0, 6)
         src = [random_geometry(s.rng, s.rng.choice(TYPES), tmax=4.0) for _ in range(n)]
